@@ -2,6 +2,279 @@ M = 'plugin/manager.go'
 F = 'internal/file/file.go'
 S = 'internal/semver/semver.go'
 U = 'plugin/manager_unix.go'
+
+def rep(text, find, replace):
+    assert text.count(find) == 1, (find, text.count(find))
+    return text.replace(find, replace)
+
+# parsePluginFromDir of the reference tree from the walk to the end, and the same code with the walk callback as a method
+WALK_OLD = """	// walk the path
+	var pluginExecutableFile, pluginName, candidatePluginName string
+	var foundPluginExecutableFile bool
+	var filesWithValidNameFormat []string
+	if err := filepath.WalkDir(path, func(p string, d fs.DirEntry, err error) error {
+		if err != nil {
+			return err
+		}
+		// skip sub-directories
+		if d.IsDir() && p != path {
+			return fs.SkipDir
+		}
+		info, err := d.Info()
+		if err != nil {
+			return err
+		}
+		// only take regular files
+		if info.Mode().IsRegular() {
+			if candidatePluginName, err = parsePluginName(d.Name()); err != nil {
+				// file name does not follow the notation-{plugin-name} format,
+				// continue
+				return nil
+			}
+			filesWithValidNameFormat = append(filesWithValidNameFormat, p)
+			isExec, err := isExecutableFile(p)
+			if err != nil {
+				return err
+			}
+			if !isExec {
+				return nil
+			}
+			if foundPluginExecutableFile {
+				return errors.New("found more than one plugin executable files")
+			}
+			foundPluginExecutableFile = true
+			pluginExecutableFile = p
+			pluginName = candidatePluginName
+		}
+		return nil
+	}); err != nil {
+		return "", "", err
+	}
+""" + """	if !foundPluginExecutableFile {
+		// if no executable file was found, but there's one and only one
+		// potential candidate, try install the candidate
+		if len(filesWithValidNameFormat) == 1 {
+			candidate := filesWithValidNameFormat[0]
+			if err := setExecutable(candidate); err != nil {
+				return "", "", fmt.Errorf("no plugin executable file was found: %w", err)
+			}
+			logger.Warnf("Found candidate plugin executable file %q without executable permission. Setting user executable bit and trying to install.", filepath.Base(candidate))
+			candidatePluginName, err := parsePluginName(filepath.Base(candidate))
+			if err != nil {
+				return "", "", err
+			}
+			return candidate, candidatePluginName, nil
+		}
+		return "", "", errors.New("no plugin executable file was found")
+	}
+	return pluginExecutableFile, pluginName, nil
+}
+"""
+
+WALK_METHOD = """	// walk the path
+	scan := pluginDirScan{root: path}
+	if err := filepath.WalkDir(path, scan.visit); err != nil {
+		return "", "", err
+	}
+	if !scan.found {
+		// if no executable file was found, but there's one and only one
+		// potential candidate, try install the candidate
+		if len(scan.candidates) == 1 {
+			candidate := scan.candidates[0]
+			if err := setExecutable(candidate); err != nil {
+				return "", "", fmt.Errorf("no plugin executable file was found: %w", err)
+			}
+			logger.Warnf("Found candidate plugin executable file %q without executable permission. Setting user executable bit and trying to install.", filepath.Base(candidate))
+			candidatePluginName, err := parsePluginName(filepath.Base(candidate))
+			if err != nil {
+				return "", "", err
+			}
+			return candidate, candidatePluginName, nil
+		}
+		return "", "", errors.New("no plugin executable file was found")
+	}
+	return scan.executableFile, scan.pluginName, nil
+}
+
+type pluginDirScan struct {
+	root           string
+	found          bool
+	executableFile string
+	pluginName     string
+	candidates []string
+}
+
+func (s *pluginDirScan) visit(p string, d fs.DirEntry, err error) error {
+	if err != nil {
+		return err
+	}
+	// skip sub-directories
+	if d.IsDir() && p != s.root {
+		return fs.SkipDir
+	}
+	info, err := d.Info()
+	if err != nil {
+		return err
+	}
+	// only take regular files
+	if info.Mode().IsRegular() {
+		candidatePluginName, err := parsePluginName(d.Name())
+		if err != nil {
+			return nil
+		}
+		s.candidates = append(s.candidates, p)
+		isExec, err := isExecutableFile(p)
+		if err != nil {
+			return err
+		}
+		if !isExec {
+			return nil
+		}
+		if s.found {
+			return errors.New("found more than one plugin executable files")
+		}
+		s.found = true
+		s.executableFile = p
+		s.pluginName = candidatePluginName
+	}
+	return nil
+}
+"""
+
+WALK_METHOD_PTR = rep(rep(WALK_METHOD, 'scan := pluginDirScan{root: path}', 'scan := &pluginDirScan{root: path}'), 'type pluginDirScan struct', '// state of one directory scan\ntype pluginDirScan struct')
+PARSER_SIG_OLD = 'func parsePluginFromDir(ctx context.Context, path string) (string, string, error) {'
+PARSER_SIG_NEW = 'func parsePluginFromDir(path string, logger log.Logger) (string, string, error) {'
+PARSER_CALL_OLD = 'parsePluginFromDir(ctx, installOpts.PluginPath)'
+PARSER_CALL_NEW = 'parsePluginFromDir(installOpts.PluginPath, logger)'
+
+# the part of parsePluginFromDir after the walk, and its flattened form (guard clauses, the re-parsed name assigned to the outer variable)
+TAIL_OLD = """	if !foundPluginExecutableFile {
+		// if no executable file was found, but there's one and only one
+		// potential candidate, try install the candidate
+		if len(filesWithValidNameFormat) == 1 {
+			candidate := filesWithValidNameFormat[0]
+			if err := setExecutable(candidate); err != nil {
+				return "", "", fmt.Errorf("no plugin executable file was found: %w", err)
+			}
+			logger.Warnf("Found candidate plugin executable file %q without executable permission. Setting user executable bit and trying to install.", filepath.Base(candidate))
+			candidatePluginName, err := parsePluginName(filepath.Base(candidate))
+			if err != nil {
+				return "", "", err
+			}
+			return candidate, candidatePluginName, nil
+		}
+		return "", "", errors.New("no plugin executable file was found")
+	}
+	return pluginExecutableFile, pluginName, nil
+}
+"""
+TAIL_FLAT = """	if foundPluginExecutableFile {
+		return pluginExecutableFile, pluginName, nil
+	}
+	if len(filesWithValidNameFormat) != 1 {
+		return "", "", errors.New("no plugin executable file was found")
+	}
+	candidate := filesWithValidNameFormat[0]
+	if err := setExecutable(candidate); err != nil {
+		return "", "", fmt.Errorf("no plugin executable file was found: %w", err)
+	}
+	logger.Warnf("Found candidate plugin executable file %q without executable permission. Setting user executable bit and trying to install.", filepath.Base(candidate))
+	if pluginName, err = parsePluginName(filepath.Base(candidate)); err != nil {
+		return "", "", err
+	}
+	return candidate, pluginName, nil
+}
+"""
+
+PN_OLD = """	pluginName, found := strings.CutPrefix(fileName, plugin.BinaryPrefix)
+	if !found || pluginName == "" {
+		return "", fmt.Errorf("invalid plugin executable file name. Plugin file name requires format notation-{plugin-name}, but got %s", fileName)
+	}
+	return pluginName, nil
+"""
+PN_SLICE = """	if !strings.HasPrefix(fileName, plugin.BinaryPrefix) || len(fileName) == len(plugin.BinaryPrefix) {
+		return "", fmt.Errorf("invalid plugin executable file name. Plugin file name requires format notation-{plugin-name}, but got %s", fileName)
+	}
+	return fileName[len(plugin.BinaryPrefix):], nil
+"""
+PN_TRIM = """	if !strings.HasPrefix(fileName, plugin.BinaryPrefix) || len(fileName) <= len(plugin.BinaryPrefix) {
+		return "", fmt.Errorf("invalid plugin executable file name. Plugin file name requires format notation-{plugin-name}, but got %s", fileName)
+	}
+	return strings.TrimPrefix(fileName, plugin.BinaryPrefix), nil
+"""
+
+VALID_OLD = """	if fileName == "." || fileName == ".." {
+		return false
+	}
+	return regexp.MustCompile(`^[a-zA-Z0-9_.-]+$`).MatchString(fileName)
+}
+"""
+VALID_SCAN = """	if fileName == "" || fileName == "." || fileName == ".." {
+		return false
+	}
+	for i := 0; i < len(fileName); i++ {
+		if !isFileNameChar(fileName[i]) {
+			return false
+		}
+	}
+	return true
+}
+
+func isFileNameChar(c byte) bool {
+	switch {
+	case 'a' <= c && c <= 'z', 'A' <= c && c <= 'Z', '0' <= c && c <= '9':
+		return true
+	}
+	return c == '_' || c == '.' || c == '-'
+}
+"""
+
+DIRCOPY_OLD = """	return filepath.WalkDir(src, func(path string, d fs.DirEntry, err error) error {
+		if err != nil {
+			return err
+		}
+		// skip sub-directories
+		if d.IsDir() && path != src {
+			return fs.SkipDir
+		}
+		info, err := d.Info()
+		if err != nil {
+			return err
+		}
+		// only copy regular files
+		if info.Mode().IsRegular() {
+			return CopyToDir(path, dst)
+		}
+		return nil
+	})
+}
+"""
+DIRCOPY_METHOD = """	cp := &dirCopy{src: src, dst: dst}
+	return filepath.WalkDir(src, cp.visit)
+}
+
+type dirCopy struct{ src, dst string }
+
+func (c *dirCopy) visit(path string, d fs.DirEntry, err error) error {
+	if err != nil {
+		return err
+	}
+	// skip sub-directories
+	if d.IsDir() && path != c.src {
+		return fs.SkipDir
+	}
+	info, err := d.Info()
+	if err != nil {
+		return err
+	}
+	// only copy regular files
+	if info.Mode().IsRegular() {
+		return CopyToDir(path, c.dst)
+	}
+	return nil
+}
+"""
+
 VARIANTS = [
  dict(name='equal-version-reinstalls', file=M, expect='flagged(table/decision)',
       find='\t\t\tcase comp == 0:\n\t\t\t\treturn nil, nil, InstallEqualVersionError{Msg: fmt.Sprintf("plugin %s with version %s already exists", pluginName, existingPluginMetadata.Version)}\n', replace=''),
@@ -74,4 +347,95 @@ VARIANTS = [
       find='\t\tif d.IsDir() && path != src {\n\t\t\treturn fs.SkipDir\n\t\t}\n', replace='\t\tif d.IsDir() {\n\t\t\tif path == src {\n\t\t\t\treturn nil\n\t\t\t}\n\t\t\treturn fs.SkipDir\n\t\t}\n'),
  dict(name='benign-cleanup-helper-var', file=M, expect='silent',
       find='\tif err := m.Uninstall(ctx, pluginName); err != nil {\n\t\tif !errors.Is(err, os.ErrNotExist) {', replace='\tif err := m.Uninstall(ctx, pluginName); err != nil {\n\t\tif notFound := errors.Is(err, os.ErrNotExist); !notFound {'),
+
+ # ---- shapes accepted since the rules were generalised (each: one silent rewrite into the shape + the shape with the property broken)
+ # A. the walk callback as a method value on a scan-state object (fields instead of captured variables)
+ dict(name='shape-walk-method-value-object', expect='silent', edits=[(M, WALK_OLD, WALK_METHOD)],
+      why='closure -> method value bound to an addressable local; root, found, pair and candidate list are fields'),
+ dict(name='shape-walk-method-pointer-object-new-signature', expect='silent',
+      edits=[(M, WALK_OLD, WALK_METHOD_PTR), (M, PARSER_SIG_OLD, PARSER_SIG_NEW), (M, PARSER_CALL_OLD, PARSER_CALL_NEW), (M, '\tlogger := log.GetLogger(ctx)\n\t// walk the path\n', '\t// walk the path\n')],
+      why='&T{root: path} and the parser called as (path, logger): the parser call of Install is found by role, not by argument position'),
+ dict(name='shape-walk-method-F14', expect='flagged(discovery/skip-sub-directories)',
+      edits=[(M, WALK_OLD, rep(WALK_METHOD, 'if d.IsDir() && p != s.root {', 'if d.IsDir() && d.Name() != filepath.Base(s.root) {'))]),
+ dict(name='shape-walk-method-root-overwritten', expect='flagged(discovery/skip-sub-directories)',
+      edits=[(M, WALK_OLD, rep(WALK_METHOD, '\t// skip sub-directories\n\tif d.IsDir() && p != s.root {', '\tif d.IsDir() {\n\t\ts.root = p\n\t}\n\t// skip sub-directories\n\tif d.IsDir() && p != s.root {'))],
+      why='the callback assigns the root field: the comparison no longer is against the walk root, every sub-directory is entered'),
+ dict(name='shape-walk-method-root-is-not-the-walk-root', expect='flagged(discovery/skip-sub-directories)',
+      edits=[(M, WALK_OLD, rep(WALK_METHOD, 'scan := pluginDirScan{root: path}', 'scan := pluginDirScan{root: filepath.Dir(path)}'))]),
+ dict(name='shape-walk-method-second-executable-wins', expect='flagged(discovery/pair-from-same-entry)',
+      edits=[(M, WALK_OLD, rep(WALK_METHOD, '\t\tif s.found {\n\t\t\treturn errors.New("found more than one plugin executable files")\n\t\t}\n', ''))]),
+ dict(name='shape-walk-method-name-of-previous-entry', expect='flagged(discovery/pair-from-same-entry)',
+      edits=[(M, WALK_OLD, rep(rep(WALK_METHOD, '\t\ts.pluginName = candidatePluginName\n', '\t\ts.pluginName = s.last\n\t\ts.last = candidatePluginName\n'), '\tcandidates []string\n}', '\tcandidates []string\n\tlast       string\n}'))],
+      why='the recorded name is what an earlier invocation left in a field, not the name parsed from this entry'),
+ dict(name='shape-walk-method-F9', expect='flagged(discovery/fallback-pair)',
+      edits=[(M, WALK_OLD, rep(WALK_METHOD, '\t\t\tcandidatePluginName, err := parsePluginName(filepath.Base(candidate))\n\t\t\tif err != nil {\n\t\t\t\treturn "", "", err\n\t\t\t}\n\t\t\treturn candidate, candidatePluginName, nil', '\t\t\treturn candidate, scan.pluginName, nil'))]),
+ dict(name='shape-walk-method-fallback-with-several-candidates', expect='flagged(discovery/fallback-pair)',
+      edits=[(M, WALK_OLD, rep(WALK_METHOD, 'if len(scan.candidates) == 1 {', 'if len(scan.candidates) >= 1 {'))]),
+ dict(name='shape-walk-method-fallback-list-refilled', expect='flagged(discovery/fallback-pair)',
+      edits=[(M, WALK_OLD, rep(WALK_METHOD, '\tif !scan.found {\n', '\tif !scan.found && len(scan.candidates) == 0 {\n\t\tscan.candidates = []string{filepath.Join(path, "notation-plugin")}\n\t}\n\tif !scan.found {\n'))],
+      why='the parser itself puts a path into the candidate list after the walk: the fallback file is not an entry the walk judged'),
+ dict(name='shape-walk-method-symlink-candidates', expect='flagged(discovery/regular-files-only)',
+      edits=[(M, WALK_OLD, rep(WALK_METHOD, '\tif info.Mode().IsRegular() {\n\t\tcandidatePluginName, err', '\tif !info.Mode().IsDir() {\n\t\tcandidatePluginName, err'))]),
+ dict(name='shape-parser-new-signature-downgrade-allowed', expect='flagged(table/decision)',
+      edits=[(M, WALK_OLD, WALK_METHOD_PTR), (M, PARSER_SIG_OLD, PARSER_SIG_NEW), (M, PARSER_CALL_OLD, PARSER_CALL_NEW), (M, '\tlogger := log.GetLogger(ctx)\n\t// walk the path\n', '\t// walk the path\n'),
+             (M, '\t\t\tcase comp < 0:', '\t\t\tcase comp < -1:')]),
+ dict(name='shape-parser-new-signature-source-error-tolerated', expect='flagged(table/decision)',
+      edits=[(M, WALK_OLD, WALK_METHOD_PTR), (M, PARSER_SIG_OLD, PARSER_SIG_NEW), (M, PARSER_CALL_OLD, PARSER_CALL_NEW), (M, '\tlogger := log.GetLogger(ctx)\n\t// walk the path\n', '\t// walk the path\n'),
+             (M, '\t\tif !errors.Is(err, file.ErrNotDirectory) {\n', '\t\tif !errors.Is(err, file.ErrNotDirectory) && !installOpts.Overwrite {\n')],
+      why='with overwrite an unusable source directory is treated like a single file source'),
+ # B. the parser flattened into guard clauses; the fallback assigns the re-parsed name to the variable the callback also writes
+ dict(name='shape-flat-parser', expect='silent', edits=[(M, TAIL_OLD, TAIL_FLAT)],
+      why='the returned variable holds the value of the one assignment that reaches the return; no call in between can change it'),
+ dict(name='shape-flat-parser-F9', expect='flagged(discovery/fallback-pair)',
+      edits=[(M, TAIL_OLD, rep(TAIL_FLAT, '\tif pluginName, err = parsePluginName(filepath.Base(candidate)); err != nil {\n\t\treturn "", "", err\n\t}\n', ''))],
+      why='returns what the walk left in the variable (empty: no executable was recorded)'),
+ dict(name='shape-flat-parser-name-of-other-file', expect='flagged(discovery/fallback-pair)',
+      edits=[(M, TAIL_OLD, rep(TAIL_FLAT, 'parsePluginName(filepath.Base(candidate)); err != nil {', 'parsePluginName(filepath.Base(path)); err != nil {'))]),
+ dict(name='shape-flat-parser-overwritten-after-parse', expect='flagged(discovery/fallback-pair)',
+      edits=[(M, TAIL_OLD, rep(TAIL_FLAT, '\treturn candidate, pluginName, nil\n', '\tif candidatePluginName != "" {\n\t\tpluginName = candidatePluginName\n\t}\n\treturn candidate, pluginName, nil\n'))],
+      why='two definitions reach the return; one of them is the name of the last well-named entry of the walk (F9 again)'),
+ # C. parsePluginName with HasPrefix + slice / TrimPrefix instead of CutPrefix
+ dict(name='shape-hasprefix-slice', expect='silent', edits=[(U, PN_OLD, PN_SLICE)]),
+ dict(name='shape-hasprefix-greater-trimprefix', expect='silent', edits=[(U, PN_OLD, PN_TRIM)]),
+ dict(name='shape-hasprefix-slice-off-by-one', expect='flagged(names/prefix-agreement)',
+      edits=[(U, PN_OLD, rep(PN_SLICE, 'return fileName[len(plugin.BinaryPrefix):], nil', 'return fileName[len(plugin.BinaryPrefix)-1:], nil'))]),
+ dict(name='shape-hasprefix-slice-empty-name', expect='flagged(names/prefix-agreement)',
+      edits=[(U, PN_OLD, rep(PN_SLICE, ' || len(fileName) == len(plugin.BinaryPrefix) {', ' {'))]),
+ dict(name='shape-hasprefix-slice-other-prefix', expect='flagged(names/prefix-agreement)',
+      edits=[(U, PN_OLD, rep(PN_SLICE, 'strings.HasPrefix(fileName, plugin.BinaryPrefix)', 'strings.HasPrefix(fileName, "notation_")'))]),
+ dict(name='shape-trimprefix-without-hasprefix', expect='flagged(names/prefix-agreement)',
+      edits=[(U, PN_OLD, rep(PN_TRIM, '!strings.HasPrefix(fileName, plugin.BinaryPrefix) || ', ''))],
+      why='TrimPrefix alone returns the whole file name when the prefix is missing'),
+ # D. the name validator as a scan over the bytes of the name
+ dict(name='shape-bytescan-validator', expect='silent', edits=[(F, '\t"regexp"\n', ''), (F, VALID_OLD, VALID_SCAN)]),
+ dict(name='shape-bytescan-accepts-slash', expect='flagged(gates/name-validator)',
+      edits=[(F, '\t"regexp"\n', ''), (F, VALID_OLD, rep(VALID_SCAN, "c == '_' || c == '.' || c == '-'", "c == '_' || c == '.' || c == '-' || c == '/'"))]),
+ dict(name='shape-bytescan-range-includes-backslash', expect='flagged(gates/name-validator)',
+      edits=[(F, '\t"regexp"\n', ''), (F, VALID_OLD, rep(VALID_SCAN, "case 'a' <= c && c <= 'z', 'A' <= c && c <= 'Z', '0' <= c && c <= '9':", "case 'A' <= c && c <= 'z', '0' <= c && c <= '9':"))],
+      why="'\\\\' lies between 'Z' and 'a'"),
+ dict(name='shape-bytescan-every-other-byte', expect='flagged(gates/name-validator)',
+      edits=[(F, '\t"regexp"\n', ''), (F, VALID_OLD, rep(VALID_SCAN, 'for i := 0; i < len(fileName); i++ {', 'for i := 0; i < len(fileName); i += 2 {'))]),
+ dict(name='shape-bytescan-bad-byte-skipped', expect='flagged(gates/name-validator)',
+      edits=[(F, '\t"regexp"\n', ''), (F, VALID_OLD, rep(VALID_SCAN, '\t\tif !isFileNameChar(fileName[i]) {\n\t\t\treturn false\n\t\t}\n', '\t\tif !isFileNameChar(fileName[i]) {\n\t\t\tcontinue\n\t\t}\n'))]),
+ dict(name='shape-bytescan-first-good-byte-accepts', expect='flagged(gates/name-validator)',
+      edits=[(F, '\t"regexp"\n', ''), (F, VALID_OLD, rep(VALID_SCAN, '\t\tif !isFileNameChar(fileName[i]) {\n\t\t\treturn false\n\t\t}\n', '\t\tif isFileNameChar(fileName[i]) {\n\t\t\treturn true\n\t\t}\n'))]),
+ dict(name='shape-bytescan-dotdot-accepted', expect='flagged(gates/name-validator)',
+      edits=[(F, '\t"regexp"\n', ''), (F, VALID_OLD, rep(VALID_SCAN, ' || fileName == ".." {', ' {'))]),
+ dict(name='shape-bytescan-empty-accepted', expect='flagged(gates/name-validator)',
+      edits=[(F, '\t"regexp"\n', ''), (F, VALID_OLD, rep(VALID_SCAN, 'if fileName == "" || fileName == "." ', 'if fileName == "." '))]),
+ # E. the directory copy's walk callback as a method value (destination and root are fields)
+ dict(name='shape-dircopy-method', expect='silent', edits=[(F, DIRCOPY_OLD, DIRCOPY_METHOD)],
+      why='the effect inventory follows the method value; root and destination are fields holding the parameters of CopyDirToDir'),
+ dict(name='shape-dircopy-method-F10', expect='flagged(discovery/skip-sub-directories)',
+      edits=[(F, DIRCOPY_OLD, rep(DIRCOPY_METHOD, 'if d.IsDir() && path != c.src {', 'if d.IsDir() && d.Name() != filepath.Base(path) {'))]),
+ dict(name='shape-dircopy-method-non-regular', expect='flagged(copy/directory)',
+      edits=[(F, DIRCOPY_OLD, rep(DIRCOPY_METHOD, '\tif info.Mode().IsRegular() {\n\t\treturn CopyToDir(path, c.dst)', '\tif !info.Mode().IsDir() {\n\t\treturn CopyToDir(path, c.dst)'))]),
+ dict(name='shape-dircopy-method-error-dropped', expect='flagged(copy/directory)',
+      edits=[(F, DIRCOPY_OLD, rep(DIRCOPY_METHOD, '\t\treturn CopyToDir(path, c.dst)\n', '\t\t_ = CopyToDir(path, c.dst)\n'))]),
+ dict(name='shape-dircopy-method-wrong-destination', expect='flagged(copy/directory)',
+      edits=[(F, DIRCOPY_OLD, rep(DIRCOPY_METHOD, 'cp := &dirCopy{src: src, dst: dst}', 'cp := &dirCopy{src: src, dst: filepath.Dir(dst)}'))],
+      why='the files land in the parent of the plugin directory'),
+ dict(name='shape-dircopy-method-destination-moves', expect='flagged(copy/directory)',
+      edits=[(F, DIRCOPY_OLD, rep(DIRCOPY_METHOD, '\tif info.Mode().IsRegular() {\n\t\treturn CopyToDir(path, c.dst)', '\tif info.Mode().IsRegular() {\n\t\tc.dst = filepath.Join(c.dst, "x")\n\t\treturn CopyToDir(path, c.dst)'))],
+      why='the callback changes the destination field between entries'),
 ]
